@@ -532,8 +532,19 @@ func c10Engine(c *Ctx) {
 		r.Check(good, "R10-engine", "Engine.Reset halts, decodes and replaces board, table and noise", c.pos(reset.Pos()), "", fmt.Sprintf("halt=%d decode=%d newboard=%d stores=%v", len(hs), len(ds), len(bs), stored))
 		if mv := c.find("pkg/engine", "Engine", "Move"); mv != nil {
 			push := c.find("pkg/board", "Board", "PushMove")
-			h, p := callsTo(mv, halt), callsTo(mv, push)
-			r.Check(len(h) == 1 && len(p) == 1 && instrDominates(h[0].(ssa.Instruction), p[0].(ssa.Instruction)), "R10-engine", "Engine.Move halts the search before it changes the game", c.pos(mv.Pos()), "", "")
+			mevs := flatten(mv, func(ins ssa.Instruction, fr *flatFrame) (string, *types.Var, ssa.Value) {
+				if call, ok := ins.(*ssa.Call); ok {
+					switch call.Call.StaticCallee() {
+					case halt:
+						return "halt", nil, call
+					case push:
+						return "push", nil, call
+					}
+				}
+				return "", nil, nil
+			})
+			h, p := evsOf(mevs, "halt"), evsOf(mevs, "push")
+			r.Check(len(h) == 1 && len(p) == 1 && flatBefore(h[0], p[0]), "R10-engine", "Engine.Move halts the search before it changes the game", c.pos(mv.Pos()), "", "")
 		}
 	}
 }
